@@ -64,7 +64,8 @@ def _run(level, cfg, events, var, perm):
                                  async_callbacks=var.get("async_callbacks", False),
                                  wall=var.get("wall", "jump"), atimeout=var.get("atimeout", False),
                                  loop=var.get("loop", False), flavours=var.get("flavours"),
-                                 entry2=var.get("entry2"), sinks=var.get("sinks"))
+                                 entry2=var.get("entry2"), sinks=var.get("sinks"),
+                                 nosleeper=var.get("nosleeper", False))
     # the decorator and the Policy wrappers go through Policy.call, which classifies the raised
     # exception once more
     wrapped = var.get("entry2") or var["entry"].split(".")[0] in ("Policy", "AsyncPolicy", "RetryPolicy",
@@ -233,12 +234,33 @@ def _random_chunk(args):
     return out
 
 
+def wall_steps() -> list[dict]:
+    """real (wall) time passes inside an attempt while the monotonic clock stands still - a step of
+    the wall clock as seen from the run: no influence on any decision"""
+    out = []
+    for entry in ("Retry", "AsyncRetry"):
+        cfg = {"maxAtt": 3, "lim": {k: -1 for k in ALL_CLASSES}, "maxUnk": -1, "D": 20,
+               "hasDefault": True, "strat": [], "legacy": [], "budget": -1, "bW": 100000, "handler": False,
+               "abort": False, "rc": False, "bsleep": False, "opname": True, "hooks": False, "adaptive": []}
+        ev = [{"e": "invoke", "out": "exc", "k": "TRANSIENT", "ra": -1, "dur": 1, "wallstep": 1.3},
+              {"e": "strategy", "ret": {"kind": "val", "v": 2}}, {"e": "sleep", "adv": "exact"},
+              {"e": "invoke", "out": "exc", "k": "TRANSIENT", "ra": -1, "dur": 1},
+              {"e": "strategy", "ret": {"kind": "val", "v": 2000}}, {"e": "sleep", "adv": "exact"},
+              {"e": "invoke", "out": "ok", "k": "-", "ra": -1, "dur": 0},
+              {"e": "deliver", "mode": "exec", "gap": 0}]
+        obs = retryenv.run_scenario(cfg, ev, entry=entry, place="ctor", async_callbacks=False)
+        out.append({"cfg": full_cfg(cfg), "ev": obs, "variant": {"entry": entry, "wall_step_s": 1.3}, "script": ev})
+    return out
+
+
 def long_runs() -> list[dict]:
     """hundreds of attempts in one run: every counter and cap still exact"""
     out = []
-    for entry, ma, lim in (("Retry", 300, -1), ("AsyncRetry", 300, 250), ("Retry", 1000, -1)):
+    for entry, ma, lim, legacy in (("Retry", 300, -1, False), ("AsyncRetry", 400, 300, False),
+                                   ("Retry", 1100, -1, True)):
         cfg = {"maxAtt": ma, "lim": {k: -1 for k in ALL_CLASSES} | {"TRANSIENT": lim}, "maxUnk": -1, "D": 1000000,
-               "hasDefault": True, "strat": [], "legacy": [], "budget": -1, "bW": 100000, "handler": False,
+               "hasDefault": True, "strat": [], "legacy": ["default"] if legacy else [], "budget": -1,
+               "bW": 100000, "handler": False,
                "abort": False, "rc": False, "bsleep": False, "opname": True, "hooks": False, "adaptive": []}
         n = min(ma, lim + 1) if lim >= 0 else ma
         ev = []
@@ -321,7 +343,8 @@ for _p in ("C01", "C02", "C03", "C04", "C05", "C10", "C11", "C13", "C14", "C16")
                                                  (FOUR + CONTEXTS if _p == "C16" else
                                                   (FOUR + DECORATED if _p == "C14" else FOUR))))),
             n_random={"quick": 1500, "thorough": 30000},
-            exports_extra={"C10": ["RetryMC_C10y.cfg"], "C05": ["RetryMC_C05y.cfg"]}.get(_p, []))
+            exports_extra={"C10": ["RetryMC_C10y.cfg"], "C05": ["RetryMC_C05y.cfg"],
+                           "C16": ["RetryMC_C16y.cfg"]}.get(_p, []))
 
 
 def export_behaviours(cfgfile: str, tag: str, module: str = "RetryMC.tla"):
@@ -394,7 +417,12 @@ def check(prop: str, tier: str) -> Report:
     extra_exports: dict = {}
     for xcfg in pf.get("exports_extra", []):
         xconfigs, xbehs, xres = export_behaviours(pick_cfg(xcfg[:-4], tier), f"{prop}-exp2")
-        xn, xm = replay_behaviours(xconfigs, xbehs, variants)
+        xvars = variants
+        if xcfg == "RetryMC_C16y.cfg":
+            xvars = [{"entry": "Retry", "place": "ctor", "nosleeper": True},
+                     {"entry": "Policy", "place": "call", "nosleeper": True},
+                     {"entry": "Retry", "place": "call"}, {"entry": "AsyncRetry", "place": "ctor"}]
+        xn, xm = replay_behaviours(xconfigs, xbehs, xvars)
         n_replayed += xn
         mism += xm
         extra_exports[xcfg] = {"behaviours_exported": len(xbehs), "export_states": xres.distinct,
@@ -402,6 +430,8 @@ def check(prop: str, tier: str) -> Report:
     rand = random_traces(pf["n_random"][tier], prop)
     if prop in ("C01", "C03", "C05"):
         rand += long_runs()
+    if prop == "C02":
+        rand += wall_steps()
     walldiff = [t for t in mism if t.get("walldiff")]
     mism = [t for t in mism if not t.get("walldiff")]
     if prop == "C02":
